@@ -185,10 +185,10 @@ def jobs(tier, seed, excluded=()):
     rng = random.Random(seed)
     dom = Dom(int_max=9, int_cands=[], str_mode="cand", str_cands=["p"], hex_cands=["0x1f"], float_cands=["0.25"])
     if tier == "quick":
-        trees = ["T07", "T08", "E_choice_default", "E_choice_dep", "E_choice_member_dep", "F:kconfiglib/kconfigs/Kconfig.choices", "F:kconfiglib/kconfigs/Kconfig.nested_choices"]
+        trees = ["T07", "T08", "E_choice_default", "E_choice_dep", "E_choice_member_dep", "E_choice_prompt_if", "F:kconfiglib/kconfigs/Kconfig.choices", "F:kconfiglib/kconfigs/Kconfig.nested_choices"]
         budget, nparts, tmo, nops, nlines = 150, 2, 100, 1, 2
     else:
-        trees = ["T07", "T08", "T15", "E_choice_default", "E_choice_dep", "E_choice_member_dep"] + ["F:kconfiglib/kconfigs/Kconfig." + x for x in ("choices", "nested_choices", "choice_loading", "choice_non_first_default", "unnamed_choices", "disabled_symbols_choices", "invisible_choice_all_n")] + ["F:menuconfig/kconfigs/Kconfig.choice_default", "F:menuconfig/kconfigs/Kconfig.choice_explicit_default"]
+        trees = ["T07", "T08", "T15", "E_choice_default", "E_choice_dep", "E_choice_member_dep", "E_choice_prompt_if"] + ["F:kconfiglib/kconfigs/Kconfig." + x for x in ("choices", "nested_choices", "choice_loading", "choice_non_first_default", "unnamed_choices", "disabled_symbols_choices", "invisible_choice_all_n")] + ["F:menuconfig/kconfigs/Kconfig.choice_default", "F:menuconfig/kconfigs/Kconfig.choice_explicit_default"]
         budget, nparts, tmo, nops, nlines = 250, 4, 200, 2, 3
     out = []
     for tid in trees:
@@ -203,6 +203,9 @@ def jobs(tier, seed, excluded=()):
         # (b) one/two operations with live caches, per target
         targets = [i for i, sl in enumerate(slots) if sl.kind != "pick"]
         rng.shuffle(targets)
+        # the options that conditions refer to (not members themselves) come first: they move member visibility
+        allmembers = {m for sl in slots if sl.kind == "pick" for m in sl.members}
+        targets.sort(key=lambda i: slots[i].name in allmembers)
         for t in targets[: (3 if tier == "quick" else len(targets))]:
             hist = [t] if nops == 1 else [t, rng.choice(targets)]
             ep = []
@@ -210,7 +213,7 @@ def jobs(tier, seed, excluded=()):
             for j, tt in enumerate(hist):
                 ep += [("ok%d" % j, "int"), ("ov%d" % j, "int")]
                 epre.append("0 <= ok%d <= 3 and 0 <= ov%d <= 1" % (j, j))
-            js = state_jobs("C05", "vk.props.c05", "state", [tid], dom, budget // (5 ** len(hist)) + 8, 1, tmo, rng, {"targets": hist}, tag="op-" + "+".join(slots[x].name for x in hist), extra_params=ep, extra_pre=" and ".join(epre), extra_samples=lambda r, h=hist: [x for _ in h for x in (r.randint(0, 3), r.randint(0, 1))], must_free=lambda tid_, sl_, h=hist: [sl_[x].name for x in h])
+            js = state_jobs("C05", "vk.props.c05", "state", [tid], dom, budget // (5 ** len(hist)) + 8, 1, tmo, rng, {"targets": hist}, tag="op-" + "+".join(slots[x].name for x in hist), extra_params=ep, extra_pre=" and ".join(epre), extra_samples=lambda r, h=hist: [x for _ in h for x in (r.randint(0, 3), r.randint(0, 1))], must_free=lambda tid_, sl_, h=hist: [sl_[x].name for x in h] + [s_.name for s_ in sl_ if s_.kind == "pick"])
             out += js
         # (c) loads assigning several members
         for sl in slots:
